@@ -65,6 +65,8 @@ pub fn gen_c10(seed: u64, thorough: bool) -> Plan {
     let d0: i64 = (round as i64 * 7 % 61) - 30;
     let d: u64 = if round % 2 == 0 { (round as u64 * 13) % 71 } else { (d0 + 30 - (round as i64 / 2 % 3)).max(0) as u64 };
     let _ = thorough;
+    let pre = [0u64, 0, 3, 17, 20, 29, 31, 33, 45, 58, 61, 62, 64, 90, 125][(round / 3) % 15];
+    let mid = [0u64, 0, 1, 2, 3][(round / 5) % 5];
     Plan {
         property: "C10".into(),
         scenario: "freshness".into(),
@@ -75,8 +77,12 @@ pub fn gen_c10(seed: u64, thorough: bool) -> Plan {
         flows: vec![],
         // replay histories: how the first presentation and the copies are cut into segments (0 = one segment; the cut
         // never falls inside salt + fixed-length header, the one boundary Shadowsocks 2022 requires in the first read)
+        // replay histories also vary what the server has been through: how long it has been up (idle) before the first
+        // presentation, and how many other (fresh, accepted) handshakes arrive between the first presentation and the copy -
+        // a replay memory that is organised in generations, or that is refreshed or rotated by other traffic, shows only then
         extra: serde_json::json!({ "kind": kind, "delta": delta, "type": type_byte, "d0": d0, "d": d, "sub_seed": g.next(),
-            "seg_first": g.below(4), "seg_copy": g.below(4), "seg_draw": g.next() }),
+            "seg_first": g.below(4), "seg_copy": g.below(4), "seg_draw": g.next(),
+            "pre": pre, "mid": mid }),
     }
 }
 
@@ -219,6 +225,12 @@ pub fn execute_c10(plan: &Plan) -> Outcome {
             "replay" => {
                 let opts = ClientOpts { ts_offset: d0, ..Default::default() };
                 let tag = format!("replay-tag-{d0}-{d}").into_bytes();
+                let pre = plan.extra["pre"].as_u64().unwrap_or(0);
+                let mid = plan.extra["mid"].as_u64().unwrap_or(0);
+                if pre > 0 {
+                    // the server has been up (and idle) for a while before the request is made
+                    tokio::time::sleep(Duration::from_secs(pre)).await;
+                }
                 let (_, wire) = RefClient::start(&c, &mut g, unix_now(), &addr, &tag, &opts);
                 let fixed_end = key_len(&c.cipher) + 16 * c.client_keys.len().saturating_sub(1) + 11 + 16;
                 let draw = plan.extra["seg_draw"].as_u64().unwrap_or(0);
@@ -230,10 +242,22 @@ pub fn execute_c10(plan: &Plan) -> Outcome {
                 log.lock().unwrap().conns.clear();
                 let again = present_cut(&wire, &cuts_copy, &tag, &log).await;
                 obs.push((format!("identical copy {:.1} s later (client clock {d0:+} s), first cut at {cuts_first:?}, copy cut at {cuts_copy:?}", 0.3), false, again));
-                tokio::time::sleep(Duration::from_secs(d)).await;
+                // the delay, with `mid` other clients' fresh handshakes spread over it
+                let mut left = d;
+                for k in 0..mid {
+                    let step = left / (mid - k + 1);
+                    tokio::time::sleep(Duration::from_secs(step)).await;
+                    left -= step;
+                    let tagm = format!("replay-mid-{k}").into_bytes();
+                    let (_, wm) = RefClient::start(&c, &mut g, unix_now(), &addr, &tagm, &ClientOpts::default());
+                    log.lock().unwrap().conns.clear();
+                    let got = present(&wm, &tagm, &log).await;
+                    obs.push((format!("fresh handshake of another client between the first presentation and the copy ({k})"), true, got));
+                }
+                tokio::time::sleep(Duration::from_secs(left)).await;
                 log.lock().unwrap().conns.clear();
                 let later = present_cut(&wire, &cuts_copy, &tag, &log).await;
-                obs.push((format!("identical copy {d} s later (client clock {d0:+} s, timestamp now {:+} s off)", d0 - d as i64), false, later));
+                obs.push((format!("identical copy {d} s later (client clock {d0:+} s, timestamp now {:+} s off; server up {pre} s before the first presentation, {mid} other handshakes in between)", d0 - d as i64), false, later));
                 let tag2 = b"replay-control-tag";
                 let (_, wire2) = RefClient::start(&c, &mut g, unix_now(), &addr, tag2, &ClientOpts::default());
                 let got = present(&wire2, tag2, &log).await;
